@@ -17,11 +17,17 @@ func init() {
 			Thorough:  map[string]int{"nmax": 12},
 			Reach:     []string{"mixed success and failure", "empty input"},
 			Functions: []string{"common.AsyncMapReduce[int,int,[]int]", "common.AsyncMapReduce$1", "common.AsyncMapReduce$2", "gqlerrors.ExtendErrorList", "gqlerrors.FormatError"},
+		}, {
+			Name: "amr-interface-results", Pkg: "common", Files: []string{"common/c20.go"}, Entry: "VerifAMRInterface", Mode: "all", Race: true,
+			Quick:     map[string]int{"nmax": 3},
+			Thorough:  map[string]int{"nmax": 4},
+			Reach:     []string{"interface results reduced"},
+			Functions: []string{"common.AsyncMapReduce[int,interface{},[]interface{}]"},
 		}},
 		Assume: []string{
 			"trusted model of the Go runtime inside the engine: channels (FIFO wait queues), select, WaitGroup, defer/recover, goroutine creation",
 			"map and reduce functions of the harness neither panic nor block",
 		},
-		Outside: []string{"inputs longer than nmax (amr: 4 / 5 items under every interleaving; amr-many-items: up to 12 items under the canonical schedule, on every change with the first or last k items failing, in the thorough tier with every failure pattern)", "instantiations other than [int,int,[]int] (the generic body is shared)", "map/reduce functions that panic or block"},
+		Outside: []string{"inputs longer than nmax (amr: 4 / 5 items under every interleaving; amr-many-items: up to 12 items under the canonical schedule, on every change with the first or last k items failing, in the thorough tier with every failure pattern)", "instantiations other than [int,int,[]int] and [int,interface{},[]interface{}] (the generic body is shared)", "map/reduce functions that panic or block"},
 	})
 }
